@@ -227,7 +227,7 @@ def _df_fillna(df, method = None, axis = 0, limit = None):
                 if last_valid is not None:    
                     res = res.ffill(**params)
                     res[res.index>last_valid] = invalid
-            else:
+            elif res.shape[1] > 0: ## a frame without columns has nothing to fill (and pd.concat of no objects raises)
                 res = pd.concat([_df_fillna(res.iloc[:, i], m, **params) for i in range(res.shape[1])], axis=1)
         elif is_date(m):
             res = res.ffill(**params)
